@@ -1,4 +1,5 @@
 import CircusProofs.Core.Init
+import CircusProofs.Core.OptionsCmd
 /-!
 # C15 — the watcher directory stays coherent; names are unique ignoring case
 
@@ -115,6 +116,41 @@ theorem C15_case_insensitive_lookup {s : State} (h : DirInv s) {w : Watcher} (hw
   have hl := lookup_of_mem_nodup (by simpa [dirView] using h.2.1) hk
   simp only [getWatcherCmd, lookupWatcher, getA, bind, pure, hn, hl]
 
+/-- the heap holds one object per identity: looking a registered watcher's identity up gives that object -/
+theorem getW_of_mem_dir {s : State} (h : DirInv s) {w : Watcher} (hw : w ∈ s.ws) : (getW w.uid s).1 = w := by
+  have hnd : (s.ws.map (·.uid)).Nodup := by
+    have h4 := h.2.2.2.1
+    simpa [dirView, List.map_map, Function.comp_def] using h4
+  simp only [getW]
+  cases hf : s.ws.find? (·.uid = w.uid) with
+  | none =>
+    have := List.find?_eq_none.mp hf w hw
+    simp at this
+  | some w' =>
+    have hm := List.mem_of_find?_eq_some hf
+    have hp := List.find?_some hf
+    simp only [decide_eq_true_eq] at hp
+    simp only [Option.getD_some]
+    exact mem_same_uid hnd hw hm hp
+
+/-- **`options` / `get` in any letter case read that watcher and no other**: for a registered watcher `w`, an
+    `options` request whose name is any spelling `n` with `lower n = lower w.name` is answered with the options of
+    `w` itself (the body is a function of `w`'s record), and a `get` request with the named options of `w`; the state
+    is left as it was. -/
+theorem C15_options_any_letter_case {s : State} (h : DirInv s) {w : Watcher} (hw : w ∈ s.ws)
+    (hr : w.uid ∈ s.a.watchers) (n : String) (hn : pyLower n = pyLower w.name) (props : JVal)
+    (hp : props.get? "name" = some (.str n)) :
+    validateExecute "options" props s = (.ok (.value (optionsBody w)), s) ∧
+    (∀ keys, props.get? "keys" = some keys → validateExecute "get" props s = (getBody w keys, s)) := by
+  have hl := C15_case_insensitive_lookup h hw hr n hn
+  have hg := getW_of_mem_dir h hw
+  constructor
+  · rw [validateExecute_options props s (has_of_get_some hp), execOptions_eq, hp]
+    simp only [Option.getD_some, hl, hg]
+  · intro keys hk
+    rw [validateExecute_get props s (has_of_get_some hp) (has_of_get_some hk), execGet_eq, hp, hk]
+    simp only [Option.getD_some, hl, hg]
+
 /-- **a removed watcher disappears from both structures** -/
 theorem C15_rm_gone (s : State) (u : Nat) :
     let s' := (unregisterWatcher u s).2
@@ -203,5 +239,14 @@ theorem C15_add_refused_noop (w : Watcher) (s : State) (h : (registerNew w s).1 
 /-! non-vacuity: a concrete configuration is well formed, so the invariant holds along all its runs -/
 example : WellFormed [{ name := "a" }, { name := "B" }, { name := "c c" }] := by unfold WellFormed; decide +kernel
 example : ¬ WellFormed [{ name := "a" }, { name := "A" }] := by unfold WellFormed; decide +kernel
+/-- `options` asked for `b` reaches the watcher `B` (identity 2, numprocesses 3) of a three-watcher daemon -/
+example : validateExecute "options" (.obj [("name", .str "b")])
+      (initState [{ name := "a" }, { name := "B", np := 3 }, { name := "c c" }] [{}] 0) =
+    (.ok (.value (optionsBody { name := "B", np := 3, uid := 2 })),
+     initState [{ name := "a" }, { name := "B", np := 3 }, { name := "c c" }] [{}] 0) :=
+  (C15_options_any_letter_case
+    (C15_dir_inv [{ name := "a" }, { name := "B", np := 3 }, { name := "c c" }] [{}] 0 (by unfold WellFormed; decide +kernel) [])
+    (w := { name := "B", np := 3, uid := 2 }) (by simp [run, initState, assignUids]) (by simp [run, initState, assignUids])
+    "b" (by decide +kernel) _ rfl).1
 
 end Circus.Core
